@@ -42,7 +42,7 @@ CHECKS["C02"] = {
     "jobs": [
         {"pkg": MUX, "run": "^TestVerif_C02_Exhaustive$"},
         {"pkg": MUX, "run": "^TestVerif_C02_Sampled$", "checks": {"quick": 5000, "thorough": 1000000}, "shards": {"thorough": 16}},
-        {"pkg": MUX, "run": "^TestVerif_C02_Concurrent$", "checks": {"quick": 300, "thorough": 30000}, "shards": {"thorough": 8}},
+        {"pkg": MUX, "run": "^TestVerif_C02_Concurrent$", "realtime": True, "checks": {"quick": 300, "thorough": 30000}, "shards": {"thorough": 8}},
     ],
 }
 
@@ -56,7 +56,7 @@ CHECKS["C01"] = {
     "jobs": [
         {"pkg": MUX, "run": "^TestVerif_C01_SessionPair$", "checks": {"quick": 1500, "thorough": 200000}, "shards": {"thorough": 16}},
         {"pkg": MUX, "run": "^TestVerif_C01_AddConnRace$", "checks": {"quick": 300, "thorough": 20000}, "shards": {"thorough": 8}},
-        {"pkg": MUX, "run": "^TestVerif_C01_Liveness$", "checks": {"quick": 150, "thorough": 10000}, "shards": {"thorough": 8}, "timeout": {"quick": 900}},
+        {"pkg": MUX, "run": "^TestVerif_C01_Liveness$", "realtime": True, "checks": {"quick": 150, "thorough": 10000}, "shards": {"thorough": 8}, "timeout": {"quick": 900}},
         {"pkg": SERVER, "run": "^TestVerif_C01_FullRig$", "checks": {"quick": 90, "thorough": 8000}, "shards": {"thorough": 16}, "timeout": {"quick": 600}},
         {"pkg": MUX, "run": "^TestVerif_C01_ManyStreams$", "checks": {"quick": 40, "thorough": 3000}, "shards": {"thorough": 16}},
     ],
@@ -87,9 +87,9 @@ CHECKS["C12"] = {
         {"pkg": SERVER, "run": "^TestVerif_C12_FullRigFaults$", "checks": {"quick": 80, "thorough": 6000}, "shards": {"thorough": 16}, "timeout": {"quick": 600}},
         {"pkg": SERVER, "run": "^TestVerif_C12_ConnectFault$", "checks": {"quick": 150, "thorough": 10000}, "shards": {"thorough": 8}, "timeout": {"quick": 600}},
         {"pkg": MUX, "run": "^TestVerif_C12_OpenRace$", "checks": {"quick": 300, "thorough": 20000}, "shards": {"thorough": 8}, "timeout": {"quick": 300}},
-        {"pkg": MUX, "run": "^TestVerif_C12_AcceptBacklog$", "checks": {"quick": 40, "thorough": 2000}, "shards": {"thorough": 8}, "timeout": {"quick": 900}},
-        {"pkg": MUX, "run": "^TestVerif_C12_UnreadBacklog$", "checks": {"quick": 10, "thorough": 300}, "shards": {"thorough": 4}, "timeout": {"quick": 900}},
-        {"pkg": MUX, "run": "^TestVerif_C12_CloseRace$", "checks": {"quick": 30, "thorough": 2000}, "shards": {"thorough": 8}, "timeout": {"quick": 900}},
+        {"pkg": MUX, "run": "^TestVerif_C12_AcceptBacklog$", "realtime": True, "checks": {"quick": 40, "thorough": 2000}, "shards": {"thorough": 8}, "timeout": {"quick": 900}},
+        {"pkg": MUX, "run": "^TestVerif_C12_UnreadBacklog$", "realtime": True, "checks": {"quick": 10, "thorough": 300}, "shards": {"thorough": 4}, "timeout": {"quick": 900}},
+        {"pkg": MUX, "run": "^TestVerif_C12_CloseRace$", "realtime": True, "checks": {"quick": 30, "thorough": 2000}, "shards": {"thorough": 8}, "timeout": {"quick": 900}},
         {"pkg": MUX, "run": "^TestVerif_C12_Inactivity$", "checks": {"quick": 1500, "thorough": 150000}, "shards": {"thorough": 16}, "timeout": {"quick": 300}},
     ],
 }
@@ -103,10 +103,10 @@ CHECKS["C13"] = {
     "assumptions": ["reference codec is faithful", "sink connections accept every write"],
     "jobs": [
         {"pkg": MUX, "run": "^TestVerif_C13_Scenarios$", "checks": {"quick": 1500, "thorough": 150000}, "shards": {"thorough": 16}, "timeout": {"quick": 300}},
-        {"pkg": MUX, "run": "^TestVerif_C13_Stress$", "checks": {"quick": 60, "thorough": 3000}, "shards": {"thorough": 4}, "timeout": {"quick": 300}},
+        {"pkg": MUX, "run": "^TestVerif_C13_Stress$", "realtime": True, "checks": {"quick": 60, "thorough": 3000}, "shards": {"thorough": 4}, "timeout": {"quick": 300}},
         {"pkg": MUX, "run": "^TestVerif_C13_OpenIDs$", "checks": {"quick": 150, "thorough": 5000}, "timeout": {"quick": 300}},
-        {"pkg": MUX, "run": "^TestVerif_C13_Stress$", "checks": {"thorough": 300}, "race": True, "tiers": ["thorough"], "env": {"VERIF_RACE": "1"}},
-        {"pkg": CKCLIENT, "run": "^TestVerif_C13_Program$", "checks": {"quick": 12, "thorough": 400}, "shards": {"thorough": 4}, "timeout": {"quick": 600}},
+        {"pkg": MUX, "run": "^TestVerif_C13_Stress$", "realtime": True, "checks": {"thorough": 300}, "race": True, "tiers": ["thorough"], "env": {"VERIF_RACE": "1"}},
+        {"pkg": CKCLIENT, "run": "^TestVerif_C13_Program$", "realtime": True, "checks": {"quick": 12, "thorough": 400}, "shards": {"thorough": 4}, "timeout": {"quick": 600}},
     ],
 }
 
@@ -119,8 +119,8 @@ CHECKS["C14"] = {
     "assumptions": ["network delivers each record exactly once"],
     "jobs": [
         {"pkg": MUX, "run": "^TestVerif_C14_Datagrams$", "checks": {"quick": 2000, "thorough": 300000}, "shards": {"thorough": 16}, "timeout": {"quick": 300}},
-        {"pkg": MUX, "run": "^TestVerif_C14_Concurrent$", "checks": {"quick": 100, "thorough": 6000}, "shards": {"thorough": 8}, "timeout": {"quick": 900}},
-        {"pkg": SERVER, "run": "^TestVerif_C14_UDPRig$", "checks": {"quick": 6, "thorough": 400}, "shards": {"thorough": 4}, "timeout": {"quick": 300}},
+        {"pkg": MUX, "run": "^TestVerif_C14_Concurrent$", "realtime": True, "checks": {"quick": 100, "thorough": 6000}, "shards": {"thorough": 8}, "timeout": {"quick": 900}},
+        {"pkg": SERVER, "run": "^TestVerif_C14_UDPRig$", "realtime": True, "checks": {"quick": 6, "thorough": 400}, "shards": {"thorough": 4}, "timeout": {"quick": 300}},
     ],
 }
 
@@ -148,7 +148,7 @@ CHECKS["C11"] = {
     "jobs": [
         {"pkg": MUX, "run": "^TestVerif_C11_Flips$"},
         {"pkg": MUX, "run": "^TestVerif_C11_Random$", "checks": {"quick": 4000, "thorough": 600000}, "shards": {"thorough": 16}},
-        {"pkg": MUX, "run": "^TestVerif_C11_Concurrent$", "checks": {"quick": 150, "thorough": 10000}, "shards": {"thorough": 8}, "timeout": {"quick": 900}},
+        {"pkg": MUX, "run": "^TestVerif_C11_Concurrent$", "realtime": True, "checks": {"quick": 150, "thorough": 10000}, "shards": {"thorough": 8}, "timeout": {"quick": 900}},
         {"pkg": MUX, "run": "^TestVerif_C11_Transport$"},
         {"pkg": MUX, "run": "^$", "tiers": ["thorough"], "fuzz": {"target": "^FuzzVerifRecvData$", "seconds": {"quick": 0, "thorough": 150}}},
     ],
@@ -167,7 +167,7 @@ CHECKS["C20"] = {
         {"pkg": CLIENT, "run": "^TestVerif_C20_StreamTimeout$", "checks": {"quick": 300, "thorough": 20000}, "shards": {"thorough": 8}},
         {"pkg": SERVER, "run": "^TestVerif_C20_SigAfterRetry$", "checks": {"quick": 150, "thorough": 10000}, "shards": {"thorough": 8}},
         {"pkg": SERVER, "run": "^TestVerif_C20_ServerNames$", "checks": {"quick": 150, "thorough": 10000}, "shards": {"thorough": 8}},
-        {"pkg": CKCLIENT, "run": "^TestVerif_C20_ProgramNames$", "checks": {"quick": 12, "thorough": 300}, "shards": {"thorough": 4}, "timeout": {"quick": 600}},
+        {"pkg": CKCLIENT, "run": "^TestVerif_C20_ProgramNames$", "realtime": True, "checks": {"quick": 12, "thorough": 300}, "shards": {"thorough": 4}, "timeout": {"quick": 600}},
     ],
 }
 
@@ -180,8 +180,8 @@ CHECKS["C18"] = {
     "assumptions": ["bbolt commits are atomic and durable"],
     "jobs": [
         {"pkg": SERVER, "run": "^TestVerif_C18_Store$", "checks": {"quick": 1200, "thorough": 120000}, "shards": {"thorough": 16}, "timeout": {"quick": 300}},
-        {"pkg": SERVER, "run": "^TestVerif_C18_Concurrent$", "checks": {"quick": 300, "thorough": 20000}, "shards": {"thorough": 8}},
-        {"pkg": SERVER, "run": "^TestVerif_C18_ListWhileGrowing$", "checks": {"quick": 12, "thorough": 400}, "shards": {"thorough": 4}, "timeout": {"quick": 900}},
+        {"pkg": SERVER, "run": "^TestVerif_C18_Concurrent$", "realtime": True, "checks": {"quick": 300, "thorough": 20000}, "shards": {"thorough": 8}},
+        {"pkg": SERVER, "run": "^TestVerif_C18_ListWhileGrowing$", "realtime": True, "checks": {"quick": 12, "thorough": 400}, "shards": {"thorough": 4}, "timeout": {"quick": 900}},
     ],
 }
 
@@ -224,7 +224,7 @@ CHECKS["C10"] = {
     "jobs": [
         {"pkg": SERVER, "run": "^TestVerif_C10_Wire$", "checks": {"quick": 150, "thorough": 10000}, "shards": {"thorough": 16}, "timeout": {"quick": 600}},
         {"pkg": SERVER, "run": "^TestVerif_C10_Datagrams$", "checks": {"quick": 300, "thorough": 20000}, "shards": {"thorough": 8}, "timeout": {"quick": 600}},
-        {"pkg": CKCLIENT, "run": "^TestVerif_C10_Program$", "checks": {"quick": 12, "thorough": 300}, "shards": {"thorough": 4}, "timeout": {"quick": 600}},
+        {"pkg": CKCLIENT, "run": "^TestVerif_C10_Program$", "realtime": True, "checks": {"quick": 12, "thorough": 300}, "shards": {"thorough": 4}, "timeout": {"quick": 600}},
     ],
 }
 
@@ -294,8 +294,8 @@ CHECKS["C17"] = {
     "rule": "LockOrder: 1..4 other operations from {commit, collect, getuser, isactive, terminate} while a collection is parked; Contention: 2..12 goroutines x 200..3000 iterations; Orphan: 2..14 ops from {connect (optionally held), release, drop, upload, exhaust, topup} over 1..2 users; non-trivial (Orphan) = a held dispatch resumed after its user had been terminated; distinct = distinct scenarios.",
     "assumptions": ["no progress for 10 s together with the same >=2 operation goroutines parked in sync.(*Mutex/RWMutex).Lock in two dumps one second apart is a lock cycle"],
     "jobs": [
-        {"pkg": SERVER, "run": "^TestVerif_C17_LockOrder$", "checks": {"quick": 40, "thorough": 2000}, "shards": {"thorough": 8}, "timeout": {"quick": 900}},
-        {"pkg": SERVER, "run": "^TestVerif_C17_Contention$", "checks": {"quick": 12, "thorough": 600}, "shards": {"thorough": 2}, "timeout": {"quick": 900}},
+        {"pkg": SERVER, "run": "^TestVerif_C17_LockOrder$", "realtime": True, "checks": {"quick": 40, "thorough": 2000}, "shards": {"thorough": 8}, "timeout": {"quick": 900}},
+        {"pkg": SERVER, "run": "^TestVerif_C17_Contention$", "realtime": True, "checks": {"quick": 12, "thorough": 600}, "shards": {"thorough": 2}, "timeout": {"quick": 900}},
         {"pkg": SERVER, "run": "^TestVerif_C17_Orphan$", "checks": {"quick": 600, "thorough": 60000}, "shards": {"thorough": 16}, "timeout": {"quick": 900}},
         {"pkg": SERVER, "run": "^TestVerif_C17_Records$", "checks": {"quick": 2000, "thorough": 200000}, "shards": {"thorough": 8}, "timeout": {"quick": 900}},
     ],
@@ -310,6 +310,6 @@ CHECKS["C16"] = {
     "assumptions": ["the tap sees every byte written to the client<->server connections"],
     "jobs": [
         {"pkg": SERVER, "run": "^TestVerif_C16_Usage$", "checks": {"quick": 400, "thorough": 40000}, "shards": {"thorough": 16}, "timeout": {"quick": 900}},
-        {"pkg": SERVER, "run": "^TestVerif_C16_Concurrent$", "checks": {"quick": 60, "thorough": 5000}, "shards": {"thorough": 4}},
+        {"pkg": SERVER, "run": "^TestVerif_C16_Concurrent$", "realtime": True, "checks": {"quick": 60, "thorough": 5000}, "shards": {"thorough": 4}},
     ],
 }
